@@ -156,4 +156,10 @@ theorem append_assoc'' {α} (a b c : List α) : (a ++ b) ++ c = a ++ (b ++ c) :=
 theorem append_nil'' {α} (a : List α) : a ++ [] = a := by simp
 theorem length_map'' {α β} (f : α → β) (l : List α) : (l.map f).length = l.length := by simp
 
+theorem length_reverseAux'' {α} (a b : List α) : (List.reverseAux a b).length = a.length + b.length := by
+  simp [List.reverseAux_eq]
+
+theorem reverseAux_nil_iff {α} (a b : List α) : List.reverseAux a b = [] ↔ a = [] ∧ b = [] := by
+  simp [List.reverseAux_eq]
+
 end FuncAdl
